@@ -111,10 +111,60 @@ def _offset_sites(mod):
     return sites
 
 
+def derived_number_tables(ctx):
+    """{name: (base table, problem or None)} for the module-level names of periodic.py that fold to a dict keyed by entries of symbols / names /
+    lower_names with integer values: such a table stands for `<base>.index(key) + 1` and must say exactly that for every element"""
+    cached = ctx.__dict__.get("_derived_number_tables")
+    if cached is not None:
+        return cached
+    env = fold_module_tables(ctx.mod(PERIODIC).tree)
+    out = {}
+    for name, val in env.items():
+        if name in TABLES or not isinstance(val, dict) or not val:
+            continue
+        if not all(isinstance(k, str) for k in val) or not all(isinstance(v, int) and not isinstance(v, bool) for v in val.values()):
+            continue
+        for base in ("symbols", "lower_names", "names"):
+            tab = env.get(base)
+            if tab is None or not set(val) <= set(tab):
+                continue
+            want = {}
+            for i, k in enumerate(tab):
+                want.setdefault(k, i + 1)
+            bad = sorted(k for k in want if val.get(k) != want[k])
+            out[name] = (base, None if not bad else "%s maps %d of the %d entries of %s to index+1; wrong or missing: %s" % (
+                name, len(want) - len(bad), len(want), base, [(k, val.get(k), want[k]) for k in bad[:4]]))
+            break
+    ctx.__dict__["_derived_number_tables"] = out
+    return out
+
+
+def _derived_sites(ctx, mod):
+    """(function, node, table name, key expression) for reads of a derived number table: T[key] and T.get(key...)"""
+    dt = derived_number_tables(ctx)
+    sites = []
+    if not dt:
+        return sites
+    for q, fn in mod.functions.items():
+        for n in walk_shallow(fn):
+            if isinstance(n, ast.Subscript) and isinstance(n.ctx, ast.Load) and dotted(n.value) in dt:
+                sites.append((q, n, dotted(n.value), n.slice))
+            elif isinstance(n, ast.Call) and isinstance(n.func, ast.Attribute) and n.func.attr == "get" and dotted(n.func.value) in dt and n.args:
+                sites.append((q, n, dotted(n.func.value), n.args[0]))
+    return sites
+
+
 def check_offsets(ctx, rels, rule=None):
     n = 0
     for rel in rels:
         mod = ctx.mod(rel)
+        for q, node, tname, key in _derived_sites(ctx, mod):
+            anchor = "%s:%s" % (rel, q)
+            ctx.functions_seen.add(anchor)
+            n += 1
+            base, problem = derived_number_tables(ctx)[tname]
+            ctx.check(problem is None, anchor, "Z=index+1:%s.index(%s)" % (base, U(key)),
+                      "the lookup table must give index + 1 for every entry of %s: %s" % (base, problem), node=node, rule=rule)
         for q, node, kind, parent in _offset_sites(mod):
             if q.startswith("_get_relative_atomic_masses"):
                 continue
@@ -608,7 +658,7 @@ def r7_skeleton(ctx):
     if not loop:
         raise AnalysisError("_get_charge: sign loop not found")
     loop = loop[0]
-    tokn, antin, signn = target_names(loop.target)
+    tokn = (target_names(loop.target) or [None])[0]
     top = [s for s in loop.body if isinstance(s, ast.If)]
     ok = len(top) == 1 and U(top[0].test) == "%s in chgstr" % tokn and not top[0].orelse
     ctx.check(ok, a, "arm-per-present-sign", "the magnitude is read only for the sign that occurs in the string (`if token in chgstr`)", node=loop)
